@@ -300,6 +300,7 @@ fn set_slot(sc: &mut Scenario, i: usize, kind: Kind, deps: &[usize]) {
 ///     while the Ephemeral runs (concurrency)
 ///  3: a fan-in (several upstreams of one job decided within one round of signals)
 ///  4: a dependency removed while its consumer is not recorded anew, and put back later
+///  5: chains of different lengths and mixed kinds converging on one job (`plant_convergent_chains`)
 fn ensure_slots(sc: &mut Scenario, need: usize) {
     while sc.slots.len() < need {
         let i = sc.slots.len();
@@ -309,8 +310,12 @@ fn ensure_slots(sc: &mut Scenario, need: usize) {
 }
 
 fn plant_motif(sc: &mut Scenario, feat: u16, mv: u8) {
-    let which = mv % 5;
-    let var = mv / 5;
+    let which = mv % 6;
+    let var = mv / 6;
+    if which == 5 {
+        plant_convergent_chains(sc, mv, var);
+        return;
+    }
     let extended = which == 0 && var & 8 != 0;
     let fan = 3 + (var & 1) as usize;
     let chain_len = 3 + [0usize, 1, 2, 0][((var >> 1) & 3) as usize];
@@ -527,6 +532,169 @@ fn plant_motif(sc: &mut Scenario, feat: u16, mv: u8) {
             st.plan.sched.max_running = st.plan.sched.max_running.max(2);
             if k == 1 {
                 st.edits = if var & 1 == 0 { vec![Edit::Bump(0), Edit::Delete(3, 1)] } else { vec![Edit::Delete(0, 1), Edit::Delete(3, 1)] };
+            }
+        }
+    }
+}
+
+/// Motif 5: two or three chains of different lengths and mixed kinds that converge on one job, optionally
+/// below a common root and next to an unrelated chain. Everything is built once; then the sink leaves the
+/// graph while its inputs are rebuilt and comes back, or an output in the middle is deleted, or only the
+/// generated edits apply. What is exercised is the engine's round arithmetic: in the later evaluations whole
+/// cascades of skips are resolved inside one call, the upstreams of the sink are decided a different number
+/// of signal rounds apart, and which `ConsiderJob` is still queued when depends on lengths, kinds and
+/// declaration order.
+fn plant_convergent_chains(sc: &mut Scenario, mv: u8, var: u8) {
+    // generated bytes of the scenario are the entropy of the layout
+    let mut ent: Vec<u8> = sc.steps.iter().flat_map(|s| s.plan.sched.choices.iter().chain(s.plan.sched.decl.iter()).cloned().collect::<Vec<u8>>()).take(48).collect();
+    let mut x = (mv as u32).wrapping_mul(2654435761u32).wrapping_add(var as u32);
+    while ent.len() < 48 {
+        x = x.wrapping_mul(1664525).wrapping_add(1013904223);
+        ent.push((x >> 24) as u8);
+    }
+    let mut ei = 0usize;
+    let mut next = |m: usize| -> usize {
+        let b = ent[ei % ent.len()] as usize;
+        ei += 1;
+        b * m >> 8
+    };
+    let nchains = 2 + (var & 1) as usize;
+    let common_root = var & 2 != 0;
+    let side_chain = var & 4 != 0;
+    let max_len = if nchains == 3 { 3 } else { 4 };
+    let mut layout: Vec<(Kind, Vec<usize>)> = vec![];
+    let mut always_roots: Vec<usize> = vec![];
+    if common_root {
+        let k = if var & 8 != 0 { Kind::Always } else { Kind::Output };
+        if k == Kind::Always {
+            always_roots.push(0);
+        }
+        layout.push((k, vec![]));
+    }
+    let mut lasts: Vec<usize> = vec![];
+    let mut mids: Vec<usize> = vec![];
+    for _ in 0..nchains {
+        let len = 1 + next(max_len);
+        let mut prev: Option<usize> = None;
+        for k in 0..len {
+            let kind = match next(5) {
+                0 | 1 => Kind::Output,
+                2 | 3 => Kind::Ephemeral,
+                _ => if k == 0 && !common_root { Kind::Always } else { Kind::Output },
+            };
+            let deps = match prev {
+                Some(p) => vec![p],
+                None => if common_root { vec![0] } else { vec![] },
+            };
+            let idx = layout.len();
+            if kind == Kind::Always {
+                always_roots.push(idx);
+            }
+            layout.push((kind, deps));
+            if k + 1 < len {
+                mids.push(idx);
+            }
+            prev = Some(idx);
+        }
+        lasts.push(prev.unwrap());
+    }
+    let sink_kind = match next(4) {
+        0 | 1 => Kind::Output,
+        2 => Kind::Ephemeral,
+        _ => Kind::Always,
+    };
+    let sink = layout.len();
+    layout.push((sink_kind, lasts.clone()));
+    if sink_kind == Kind::Ephemeral || next(3) == 0 {
+        layout.push((Kind::Output, vec![sink]));
+    }
+    if side_chain {
+        let len = 1 + next(3);
+        let mut prev: Option<usize> = None;
+        for k in 0..len {
+            let kind = if k + 1 == len || next(2) == 0 { Kind::Output } else { Kind::Ephemeral };
+            let idx = layout.len();
+            layout.push((kind, prev.map(|p| vec![p]).unwrap_or_default()));
+            prev = Some(idx);
+        }
+    }
+    let old_n = sc.slots.len();
+    ensure_slots(sc, layout.len());
+    let n = sc.slots.len();
+    let want = 3 * n + 4;
+    for st in sc.steps.iter_mut() {
+        for sch in std::iter::once(&mut st.plan.sched).chain(st.plan.alts.iter_mut()) {
+            let old = sch.choices.len().max(1);
+            let mut i = 0usize;
+            while sch.choices.len() < want {
+                let b = sch.choices.get(i % old).cloned().unwrap_or(0);
+                sch.choices.push(b.wrapping_mul(37).wrapping_add((i as u8).wrapping_mul(101)) ^ mv);
+                i += 1;
+            }
+        }
+    }
+    while sc.steps.len() < 3 {
+        let st = sc.steps[sc.steps.len() - 1].clone();
+        sc.steps.push(st);
+    }
+    sc.motif = 6;
+    for (i, (k, d)) in layout.iter().enumerate() {
+        set_slot(sc, i, *k, d);
+    }
+    sc.steps[0].plan.fail = 0;
+    sc.steps[0].plan.abort = None;
+    // the generated edits spoke about the slots of the smaller graph: spread them over the grown one
+    let scale = |s: usize| -> usize { if old_n == 0 { s } else { (s * n / old_n).min(n - 1) } };
+    for st in sc.steps.iter_mut().skip(1) {
+        for e in st.edits.iter_mut() {
+            *e = match e.clone() {
+                Edit::ToggleJob(a) => Edit::ToggleJob(scale(a)),
+                Edit::ToggleDep { down, up, mask } => {
+                    let (d, u) = (scale(down), scale(up));
+                    if u < d { Edit::ToggleDep { down: d, up: u, mask } } else { Edit::ToggleDep { down, up, mask } }
+                }
+                Edit::TogglePart(a, p) => Edit::TogglePart(scale(a), p),
+                Edit::Delete(a, m) => Edit::Delete(scale(a), m),
+                Edit::ToggleOrder(a) => Edit::ToggleOrder(scale(a)),
+                Edit::Bump(a) => Edit::Bump(a),
+            };
+        }
+    }
+    let bumps: Vec<Edit> = always_roots.iter().map(|r| Edit::Bump(*r)).collect();
+    match (var >> 4) % 3 {
+        1 => {
+            // the sink is out of the graph while its inputs are rebuilt, then comes back
+            let st = &mut sc.steps[1];
+            st.edits = vec![Edit::ToggleJob(sink)];
+            st.edits.extend(bumps.iter().cloned());
+            if let Some(l) = lasts.first() {
+                st.edits.push(Edit::Delete(*l, 1));
+            }
+            st.plan.fail = 0;
+            st.plan.abort = None;
+            let st2 = &mut sc.steps[2];
+            st2.edits = vec![Edit::ToggleJob(sink)];
+            st2.plan.fail = 0;
+            st2.plan.abort = None;
+        }
+        2 => {
+            // an output in the middle is deleted (and the roots change or not)
+            let st = &mut sc.steps[1];
+            st.edits = if var & 8 != 0 { bumps.clone() } else { vec![] };
+            if !mids.is_empty() {
+                let m = mids[(mv as usize) % mids.len()];
+                st.edits.push(Edit::Delete(m, 1));
+            } else {
+                st.edits.push(Edit::Delete(lasts[0], 1));
+            }
+            st.plan.abort = None;
+        }
+        _ => {
+            // an up-to-date re-run, or whatever edits were generated
+            if var & 32 != 0 {
+                sc.steps[1].edits.clear();
+                sc.steps[1].plan.fail = 0;
+                sc.steps[1].plan.abort = None;
             }
         }
     }
